@@ -54,6 +54,8 @@ theorem applyConn_got (s : Node) (c : Nat) (x : Conn) (rid : Option Nat) (b : Br
 theorem classify_ack {s : Node} {x : Conn} {short : Bool} {q : Req} {ct cmd l n pre aw a}
     (h : classify s x short q = .fwdLk ct cmd l n pre aw (some a)) : lockShaped a = none := by
   cases q with
+  | will wct wcmd =>
+    rcases classify_will_shape (s := s) (x := x) (short := short) (ct := wct) (cmd := wcmd) with h1 | h1 | h1 <;> rw [h1] at h <;> cases h
   | lk ct' md cmd' rep =>
     obtain ⟨_, _, _, _, _, hk⟩ := classify_lk_fwd h
     rcases hk with ⟨_, _, _, hack⟩ | ⟨_, _, hm⟩
@@ -162,6 +164,36 @@ theorem dropAll_got (s : Node) (xs : List Conn) (i j : Nat) (x : Conn) (hj : xs[
           omega
         rw [this, List.nil_append]
 
+theorem willConn_got (s : Node) (c : Nat) (x : Conn) (ct : CType) (cmd : LockCmd) :
+    (willConn s c x ct cmd).1.got = x.got ++ msgsTo c (willConn s c x ct cmd).2.client := by
+  unfold willConn
+  repeat' split
+  all_goals simp [msgsTo, lockShaped]
+
+theorem stepRequest_client_idx {s : Node} {d : Nat} {short : Bool} {q : Req} {c' : Nat} {m : ToClient}
+    (h : (c', m) ∈ (stepRequest s d short q).2.client) : c' = d ∧ d < s.conns.length := by
+  rcases will_or_not q with ⟨wct, wcmd, rfl⟩ | hq
+  · rw [stepRequest_will] at h
+    split at h
+    · simp at h
+    · rename_i y hy
+      exact ⟨(willConn_client h).1, idx_lt hy⟩
+  · rw [stepRequest_eq hq] at h
+    split at h
+    · simp at h
+    · rename_i y hy
+      exact ⟨(applyConn_client h).1, idx_lt hy⟩
+
+theorem stepRequest_conns (s : Node) (d : Nat) (short : Bool) (q : Req) :
+    (stepRequest s d short q).1.conns = s.conns ∨ ∃ y, (stepRequest s d short q).1.conns = s.conns.set d y := by
+  rcases will_or_not q with ⟨wct, wcmd, rfl⟩ | hq
+  · rw [stepRequest_will]; split
+    · exact Or.inl rfl
+    · exact Or.inr ⟨_, rfl⟩
+  · rw [stepRequest_eq hq]; split
+    · exact Or.inl rfl
+    · exact Or.inr ⟨_, rfl⟩
+
 /-- one step: what the client of an existing connection `c` is handed is exactly what its `got` grows by -/
 theorem got_step {s : Node} {c : Nat} {x : Conn} (hx : s.conns[c]? = some x) (e : Event) :
     ∃ x', (step s e).1.conns[c]? = some x' ∧ x'.got = x.got ++ msgsTo c (step s e).2.client := by
@@ -179,16 +211,16 @@ theorem got_step {s : Node} {c : Nat} {x : Conn} (hx : s.conns[c]? = some x) (e 
   | request d short q =>
     by_cases hd : d = c
     · subst hd
-      simp only [step, stepRequest, hx, List.getElem?_set_self hlt]
-      exact ⟨_, rfl, applyConn_got _ _ _ _ _ (fun _ _ _ _ _ _ _ h => classify_ack h)⟩
+      rcases will_or_not q with ⟨wct, wcmd, rfl⟩ | hq
+      · simp only [step, stepRequest_will, hx, List.getElem?_set_self hlt]
+        exact ⟨_, rfl, willConn_got _ _ _ _ _⟩
+      · simp only [step, stepRequest_eq hq, hx, List.getElem?_set_self hlt]
+        exact ⟨_, rfl, applyConn_got _ _ _ _ _ (fun _ _ _ _ _ _ _ h => classify_ack h)⟩
     · apply frame hd
       apply msgsTo_other
       intro p hp
-      simp only [step, stepRequest] at hp
-      split at hp
-      · simp at hp
-      · have := (applyConn_client (c' := p.1) (m := p.2) hp).1
-        omega
+      have := (stepRequest_client_idx (c' := p.1) (m := p.2) hp).1
+      omega
   | leaderMsg d msg early =>
     by_cases hd : d = c
     · subst hd
@@ -232,9 +264,9 @@ theorem got_step {s : Node} {c : Nat} {x : Conn} (hx : s.conns[c]? = some x) (e 
     · subst hd
       simp only [step, stepClose, hx]
       repeat' split
-      · exact ⟨x, hx, by simp [msgsTo]⟩
-      · simp only [List.getElem?_set_self hlt]; exact ⟨_, rfl, by simp [msgsTo]⟩
-      · simp only [List.getElem?_set_self hlt]; exact ⟨_, rfl, by simp [msgsTo]⟩
+      all_goals first
+        | exact ⟨x, hx, by simp [msgsTo]⟩
+        | (simp only [List.getElem?_set_self hlt]; exact ⟨_, rfl, by simp [msgsTo]⟩)
     · apply frame hd
       simp only [step, stepClose]
       repeat' split
@@ -261,16 +293,15 @@ theorem got_step_none {s : Node} {c : Nat} (hx : s.conns[c]? = none) (e : Event)
   | role r => exact ⟨by simp [step, msgsTo], Or.inl hx⟩
   | unattached d => exact ⟨by simp [step, msgsTo], Or.inl hx⟩
   | request d short q =>
-    simp only [step, stepRequest]
-    split
-    · exact ⟨by simp [msgsTo], Or.inl hx⟩
-    · rename_i y hy
-      refine ⟨?_, Or.inl (setnone _ _)⟩
-      apply msgsTo_other
+    simp only [step]
+    refine ⟨?_, Or.inl ?_⟩
+    · apply msgsTo_other
       intro p hp
-      have := (applyConn_client (c' := p.1) (m := p.2) hp).1
-      have := idx_lt hy
+      have := stepRequest_client_idx (c' := p.1) (m := p.2) hp
       omega
+    · rcases stepRequest_conns s d short q with h | ⟨y, h⟩ <;> rw [h]
+      · exact hx
+      · exact setnone _ _
   | leaderMsg d msg early =>
     simp only [step, stepLeaderMsg]
     split
